@@ -823,6 +823,9 @@ def facts_path(cfg):
 _cache = {}
 
 def load(cfg="default"):
+    """facts of /repo's current tree (re-extracted when the cached file belongs to another tree)."""
     if cfg not in _cache:
-        _cache[cfg] = Facts(facts_path(cfg))
+        import common
+        ff, _ = common.ensure_facts(cfg)
+        _cache[cfg] = Facts(ff)
     return _cache[cfg]
